@@ -158,9 +158,9 @@ type botScn struct {
 }
 
 var botScripts = map[int][]string{
-	3: {"a1", "c3", "c2", "a2", "c1"},                                          // white road at ply 5
+	3: {"a1", "c3", "c2", "a2", "c1"},                                            // white road at ply 5
 	4: {"a1", "d4", "b1", "c4", "b2", "c3", "b1+", "c4-", "Sa3", "d1", "2b2>11"}, // slides and a wall
-	5: {"a1", "e1", "e3", "b1", "e2", "b2", "Ce4", "a2", "e5"},                  // the transcript of bot_test.go (capstone, white road)
+	5: {"a1", "e1", "e3", "b1", "e2", "b2", "Ce4", "a2", "e5"},                   // the transcript of bot_test.go (capstone, white road)
 }
 
 func mkScript(size int) ([]tak.Move, tak.Move) {
